@@ -69,21 +69,26 @@ theorem cnt_lt {U : List V} {σ σ' : Subst} (h : Extends σ σ') {v : V} (hv : 
 structure Prog (U : List V) (σ σ' : Subst) : Prop where
   rng : RngIn U σ'
   grew : σ' = σ ∨ ∃ v ∈ U, lookup σ v = none ∧ lookup σ' v ≠ none
+  keys : ∀ v, lookup σ' v ≠ none → lookup σ v ≠ none ∨ v ∈ U
 
 def ProgFn (U : List V) (u : Tm → Tm → Subst → Res) : Prop :=
   ∀ x y σ σ', u x y σ = .ok σ' → VarsIn U x → VarsIn U y → RngIn U σ → Prog U σ σ' ∧ Extends σ σ'
 
 theorem Prog.trans {U : List V} {a b c : Subst} (h₁ : Prog U a b) (h₂ : Prog U b c) (e₂ : Extends b c) :
     Prog U a c := by
-  refine ⟨h₂.rng, ?_⟩
-  cases h₁.grew with
-  | inl e => subst e; exact h₂.grew
-  | inr hw =>
-    obtain ⟨v, hv, h1, h2⟩ := hw
-    refine Or.inr ⟨v, hv, h1, ?_⟩
-    cases h3 : lookup b v with
-    | none => exact absurd h3 h2
-    | some u => rw [e₂ v u h3]; simp
+  refine ⟨h₂.rng, ?_, ?_⟩
+  · cases h₁.grew with
+    | inl e => subst e; exact h₂.grew
+    | inr hw =>
+      obtain ⟨v, hv, h1, h2⟩ := hw
+      refine Or.inr ⟨v, hv, h1, ?_⟩
+      cases h3 : lookup b v with
+      | none => exact absurd h3 h2
+      | some u => rw [e₂ v u h3]; simp
+  · intro v hv
+    cases h₂.keys v hv with
+    | inl h => exact h₁.keys v h
+    | inr h => exact Or.inr h
 
 theorem loop_prog {U : List V} {u : Tm → Tm → Subst → Res} (hu : ProgFn U u) :
     ∀ (as bs : List Tm) (σ σ' : Subst), unifyArgsLoop u as bs σ = .ok σ' →
@@ -93,7 +98,7 @@ theorem loop_prog {U : List V} {u : Tm → Tm → Subst → Res} (hu : ProgFn U 
   | nil =>
     intro bs σ σ' h _ _ hr
     cases bs with
-    | nil => simp only [unifyArgsLoop, Res.ok.injEq] at h; subst h; exact ⟨⟨hr, Or.inl rfl⟩, Extends.refl _⟩
+    | nil => simp only [unifyArgsLoop, Res.ok.injEq] at h; subst h; exact ⟨⟨hr, Or.inl rfl, fun _ h => Or.inl h⟩, Extends.refl _⟩
     | cons b bs => simp [unifyArgsLoop] at h
   | cons a as ih =>
     intro bs σ σ' h ha hb hr
@@ -131,12 +136,17 @@ theorem var_prog {U : List V} {u : Tm → Tm → Subst → Res} {o : Subst → V
       | false =>
         simp only [ho, Res.ok.injEq] at hb
         subst hb
-        refine ⟨⟨?_, Or.inr ⟨v, hv, hl, by simp [lookup_cons]⟩⟩, Extends.cons t hl⟩
-        intro x w hx
-        rw [lookup_cons] at hx
-        by_cases e : v = x
-        · simp only [e, if_true, Option.some.injEq] at hx; subst hx; exact ht
-        · simp only [e, if_false] at hx; exact hr x w hx
+        refine ⟨⟨?_, Or.inr ⟨v, hv, hl, by simp [lookup_cons]⟩, ?_⟩, Extends.cons t hl⟩
+        · intro x w hx
+          rw [lookup_cons] at hx
+          by_cases e : v = x
+          · simp only [e, if_true, Option.some.injEq] at hx; subst hx; exact ht
+          · simp only [e, if_false] at hx; exact hr x w hx
+        · intro x hx
+          rw [lookup_cons] at hx
+          by_cases e : v = x
+          · subst e; exact Or.inr hv
+          · simp only [e, if_false] at hx; exact Or.inl hx
   have hvv : VarsIn U (.var v) := fun y hy => by simp [Tm.vars] at hy; subst hy; exact hv
   unfold unifyVarWith at h
   cases hl : lookup σ v with
@@ -162,7 +172,7 @@ theorem unify_prog (E : Env) (U : List V) : ∀ n, ProgFn U (unify E n) := by
     intro s t σ σ' h hs ht hr
     rw [unify_succ] at h
     cases hsh : shape E s t with
-    | same => simp only [hsh, runShape, Res.ok.injEq] at h; subst h; exact ⟨⟨hr, Or.inl rfl⟩, Extends.refl _⟩
+    | same => simp only [hsh, runShape, Res.ok.injEq] at h; subst h; exact ⟨⟨hr, Or.inl rfl, fun _ h => Or.inl h⟩, Extends.refl _⟩
     | fail => simp [hsh, runShape] at h
     | viaVar v t' =>
       simp only [hsh, runShape] at h
